@@ -82,6 +82,11 @@ void violation(context_t& c, const std::string& what, const int* ch, const int n
 
 bool after(void* p, const int* ch, const int n)
 {
+    static uint64_t runs = 0;
+    if ((++runs & 15U) == 0U)
+    {
+        purge_tmpdir(); // one log file per (trial, fold) and fit
+    }
     auto& c = *static_cast<context_t*>(p);
     if (!c.have_ref)
     {
